@@ -268,7 +268,7 @@ pub fn finish(ctx: &Ctx, mut res: CheckResult) -> i32 {
             "  first violation: {} [{}] ops=[{}] observed={} expected={} {}",
             v.cfg.descr(),
             v.class,
-            ops_text(&v.ops),
+            if v.ops.len() > 40 { format!("{} ... ({} operations, all of them in the replay file)", ops_text(&v.ops[..12]), v.ops.len()) } else { ops_text(&v.ops) },
             v.observed,
             v.expected,
             v.detail
